@@ -300,15 +300,16 @@ def gen_tick(rng, run, bad=None):
         cs = [(run.cid(c), pi) for pi, p in enumerate(ex.pools) for c in p.active_containers
               if not c.can_suspend_container()]
         if cs:
-            tick['susp'].append(rng.choice(cs))
+            # anywhere in the batch: a batch is admissible only if every member is
+            tick['susp'].insert(rng.randrange(len(tick['susp']) + 1), rng.choice(cs))
     elif bad == 'susp-dup' and tick['susp']:
         tick['susp'].append(tick['susp'][0])
     elif bad == 'susp-unknown':
-        tick['susp'].append((rng.randrange(60), rng.randrange(r['npools'])))
+        tick['susp'].insert(rng.randrange(len(tick['susp']) + 1), (rng.randrange(60), rng.randrange(r['npools'])))
     elif bad == 'susp-suspending':
         cs = [(run.cid(c), pi) for pi, p in enumerate(ex.pools) for c in p.suspending_containers]
         if cs:
-            tick['susp'].append(rng.choice(cs))
+            tick['susp'].insert(rng.randrange(len(tick['susp']) + 1), rng.choice(cs))
     elif bad == 'susp-badpool':
         cs = [run.cid(c) for p in ex.pools for c in p.active_containers]
         cid = rng.choice(cs) if cs else rng.randrange(5)
@@ -335,6 +336,14 @@ def gen_tick(rng, run, bad=None):
                 if st[j] in (0, 5) and j not in taken and rng.random() < 0.7 and \
                         all(st[w.gid[q]] == 4 or w.gid[q] in ops for q in w.ops[j].parents):
                     ops.append(j)
+            if rng.random() < r.get('p_inflight', 0.2):
+                # operators whose parents are still in flight in ANOTHER container, queued behind the pack (legal
+                # at assignment time; the dependency check happens when the operator starts)
+                for j in range(w.first[k], w.first[k] + len(r['pipes'][k][1])):
+                    if st[j] in (0, 5) and j not in taken and j not in ops and rng.random() < 0.6 and \
+                            all(st[w.gid[q]] in (1, 2, 4) or w.gid[q] in ops for q in w.ops[j].parents) and \
+                            any(st[w.gid[q]] in (1, 2) for q in w.ops[j].parents):
+                        ops.append(j)
             if rng.random() < 0.2:
                 # a container that mixes pipelines (the executor allows it): ready operators of other pipelines
                 for j in range(len(w.ops)):
@@ -400,6 +409,8 @@ def gen_tick(rng, run, bad=None):
             free = [i for i in range(len(st)) if st[i] in (0, 5) and i not in taken]
             if free:
                 a[0] = a[0] + [rng.choice(free)]
+    if bad and bad.startswith('asg-') and len(tick['asg']) > 1 and rng.random() < 0.5:
+        rng.shuffle(tick['asg'])          # the inadmissible member anywhere in the batch
     # informational Assignment fields (container_id of an earlier container, is_resume, force_run)
     if run.next_cid and rng.random() < 0.35:
         for a in tick['asg']:
@@ -415,9 +426,13 @@ BAD_KINDS = ['susp-mid', 'susp-dup', 'susp-unknown', 'susp-suspending', 'susp-wr
              'asg-pool', 'asg-empty', 'asg-cpu0', 'asg-ram0', 'asg-busy', 'asg-parent', 'asg-order', 'asg-two']
 
 
-def gen_history(rng, gen='G-exec', overcommit=None, max_ticks=None, p_bad=0.3, bad_kinds=None, bad_early=False):
+def gen_history(rng, gen='G-exec', overcommit=None, max_ticks=None, p_bad=0.3, bad_kinds=None, bad_early=False,
+                p_inflight=None):
     cfg = gen_config(rng, overcommit)
     cfg['gen'] = gen
+    if p_inflight is not None:
+        cfg['p_inflight'] = p_inflight
+        cfg['multi'] = 1
     run = ExecRun(cfg)
     n = max_ticks or rng.randint(15, 70)
     bad_at = (rng.randrange(0, 6) if bad_early else rng.randrange(3, n)) if rng.random() < p_bad else None
@@ -437,9 +452,11 @@ def gen_history(rng, gen='G-exec', overcommit=None, max_ticks=None, p_bad=0.3, b
     return cfg, run
 
 
-def gen_twins(rng, gen='G-exec-twins'):
+def gen_twins(rng, gen='G-exec-twins', odd=False):
     """several identical multi-operator containers started in the same tick on one pool, so that they reach
-    operator boundaries together, are suspended in the same tick and finish suspending in the same tick"""
+    operator boundaries together, are suspended in the same tick and finish suspending in the same tick.
+    odd=True adds one container with longer operators (so it is in the middle of an operator when the twins are
+    at a boundary) and once asks for its suspension inside the batch of admissible ones, at a random position"""
     tps = rng.choice([1, 2, 4, 10])
     n = rng.randint(2, 4)
     nops = rng.randint(2, 3)
@@ -448,10 +465,14 @@ def gen_twins(rng, gen='G-exec-twins'):
     pipes = [(3, [[j - 1] if j else [] for j in range(nops)]) for _ in range(n)]
     segs = [[[dict(baseline_cpu_seconds=float(L) / tps, cpu_scaling='const', storage_read_gb=0.0, memory_gb=0.5)]
              for L in lens] for _ in range(n)]
+    if odd:
+        pipes.append((3, [[j - 1] if j else [] for j in range(nops)]))
+        segs.append([[dict(baseline_cpu_seconds=float(L + 2 + 3 * j) / tps, cpu_scaling='const', storage_read_gb=0.0,
+                           memory_gb=0.5)] for j, L in enumerate(lens)])
     cfg = dict(gen=gen, tps=tps, over=0, multi=1, npools=rng.choice([1, 2]), cpu=16, ram=256, pipes=pipes, segs=segs,
                ticks=[], bad=None)
     run = ExecRun(cfg)
-    t0 = dict(susp=[], asg=[(list(range(k * nops, (k + 1) * nops)), 1, ram, 3, 0) for k in range(n)])
+    t0 = dict(susp=[], asg=[(list(range(k * nops, (k + 1) * nops)), 1, ram, 3, 0) for k in range(n + int(odd))])
     cfg['ticks'].append(t0)
     run.step(t0)
     for i in range(1, 60):
@@ -460,6 +481,10 @@ def gen_twins(rng, gen='G-exec-twins'):
             cs = [c for c in p.active_containers if c.can_suspend_container()]
             if cs and rng.random() < 0.7:
                 t['susp'] += [(run.cid(c), pi) for c in cs]
+                mid = [c for c in p.active_containers if not c.can_suspend_container()]
+                if odd and mid and cfg['bad'] is None and rng.random() < 0.7:
+                    t['susp'].insert(rng.randrange(len(t['susp']) + 1), (run.cid(rng.choice(mid)), pi))
+                    cfg['bad'] = 'susp-mid'
         st = run.w.states()
         if rng.random() < 0.3:
             for k in range(n):
